@@ -21,6 +21,8 @@ for d in sorted(os.listdir("/tmp")):
             print("skip (not confirmed)", prop, X)
             continue
         dst = os.path.join(VERIF, "seeded", "%s-%s" % (prop, X))
+        if os.path.exists(os.path.join(dst, "meta.json")):
+            continue
         os.makedirs(dst, exist_ok=True)
         shutil.copy(os.path.join("/tmp", d, X + ".diff"), os.path.join(dst, "patch.diff"))
         shutil.copy(os.path.join("/tmp", d, X + "_demo.rs"), os.path.join(dst, "demo.rs"))
